@@ -25,6 +25,7 @@ type evalModel struct {
 
 	astParam, envParam, ctxParam *ssa.Parameter
 	envCell, ctxCell             *ssa.Alloc // nil when the parameter is not spilled
+	envPhi                       *ssa.Phi   // the loop-carried scope when it is not spilled to a cell
 	header                       *ssa.BasicBlock
 	astPhi                       *ssa.Phi
 	dispatch                     ssa.Value            // the string the special-form switch compares
@@ -34,6 +35,11 @@ type evalModel struct {
 	stepBlocks                   map[*ssa.BasicBlock]bool // blocks that exist only for stepping (per function)
 	stepHelpers                  []*ssa.Function          // package functions only ever called from stepping code
 	flags                        map[*ssa.Global]bool
+	// evaluation helpers: functions of the package, other than the named evaluator functions, that are called
+	// from them (transitively) and themselves evaluate forms, create scopes or write bindings.  Their blocks
+	// belong to the region of their call site(s) and their scope/context/form parameters stand for the arguments.
+	helpers     []*ssa.Function
+	helperSites map[*ssa.Function][]ssa.CallInstruction
 }
 
 func newEvalModel(w *World, e *Engine) *evalModel {
@@ -100,6 +106,17 @@ func newEvalModel(w *World, e *Engine) *evalModel {
 		m.why = "evaluation loop with a loop-carried form not found in EVAL"
 		return m
 	}
+	if m.envCell == nil {
+		for _, in := range m.header.Instrs {
+			if phi, ok := in.(*ssa.Phi); ok {
+				for _, op := range phi.Edges {
+					if op == ssa.Value(m.envParam) {
+						m.envPhi = phi
+					}
+				}
+			}
+		}
+	}
 	// dispatch value: the string compared against the most string constants
 	cnt := map[ssa.Value]int{}
 	for _, b := range m.EVAL.Blocks {
@@ -163,8 +180,143 @@ func newEvalModel(w *World, e *Engine) *evalModel {
 	}
 	sort.Strings(m.regionNames)
 	m.computeStepBlocks()
+	m.computeHelpers()
+	ctxParamArgs = m.argsFor
 	m.ok = true
 	return m
+}
+
+func (m *evalModel) isCore(f *ssa.Function) bool {
+	switch f {
+	case m.EVAL, m.evalAst, m.doFn, m.macroexpand, m.quasiquote, m.qqLoop, m.isMacroCall:
+		return true
+	}
+	return false
+}
+
+// evalRelevant: f (or a function of the package it calls) evaluates a form, creates a scope or writes a binding.
+func (m *evalModel) evalRelevant(f *ssa.Function, seen map[*ssa.Function]bool) bool {
+	if seen[f] {
+		return false
+	}
+	seen[f] = true
+	fns := append([]*ssa.Function{f}, allAnon(f)...)
+	for _, g := range fns {
+		for _, b := range g.Blocks {
+			for _, in := range b.Instrs {
+				ci, ok := in.(ssa.CallInstruction)
+				if !ok {
+					continue
+				}
+				if ci.Common().IsInvoke() {
+					switch ci.Common().Method.Name() {
+					case "Set", "SetNT", "Update", "Remove", "RemoveNT":
+						if strings.HasSuffix(ci.Common().Value.Type().String(), "types.EnvType") {
+							return true
+						}
+					}
+					continue
+				}
+				c := ci.Common().StaticCallee()
+				if c == nil {
+					continue
+				}
+				switch c {
+				case m.EVAL, m.evalAst, m.doFn, m.macroexpand, m.newSub, m.newSubBinds, m.apply:
+					return true
+				}
+				if c.Pkg == m.EVAL.Pkg && c.Parent() == nil && !m.isCore(c) && m.evalRelevant(c, seen) {
+					return true
+				}
+			}
+		}
+	}
+	return false
+}
+
+func (m *evalModel) computeHelpers() {
+	m.helperSites = map[*ssa.Function][]ssa.CallInstruction{}
+	isStep := map[*ssa.Function]bool{}
+	for _, h := range m.stepHelpers {
+		isStep[h] = true
+	}
+	work := []*ssa.Function{m.EVAL, m.evalAst, m.doFn, m.macroexpand}
+	done := map[*ssa.Function]bool{}
+	for len(work) > 0 {
+		f := work[0]
+		work = work[1:]
+		if done[f] {
+			continue
+		}
+		done[f] = true
+		for _, g := range append([]*ssa.Function{f}, allAnon(f)...) {
+			for _, b := range g.Blocks {
+				for _, in := range b.Instrs {
+					ci, ok := in.(ssa.CallInstruction)
+					if !ok {
+						continue
+					}
+					c := ci.Common().StaticCallee()
+					if c == nil || c.Pkg != m.EVAL.Pkg || c.Parent() != nil || m.isCore(c) || isStep[c] || len(c.Blocks) == 0 {
+						continue
+					}
+					if !m.evalRelevant(c, map[*ssa.Function]bool{}) {
+						continue
+					}
+					if _, known := m.helperSites[c]; !known {
+						m.helpers = append(m.helpers, c)
+					}
+					m.helperSites[c] = append(m.helperSites[c], ci)
+					work = append(work, c)
+				}
+			}
+		}
+	}
+}
+
+// helperOf: the evaluation helper a function is (or is a closure inside of), if any.
+func (m *evalModel) helperOf(f *ssa.Function) *ssa.Function {
+	for g := f; g != nil; g = g.Parent() {
+		if _, ok := m.helperSites[g]; ok {
+			return g
+		}
+	}
+	return nil
+}
+
+// liftBlock: the blocks of EVAL (or another named evaluator function) from which control is in block b of a helper.
+func (m *evalModel) liftBlock(b *ssa.BasicBlock, depth int) []*ssa.BasicBlock {
+	h := m.helperOf(b.Parent())
+	if h == nil || depth > 6 {
+		return []*ssa.BasicBlock{b}
+	}
+	var out []*ssa.BasicBlock
+	for _, s := range m.helperSites[h] {
+		out = append(out, m.liftBlock(s.Block(), depth+1)...)
+	}
+	return out
+}
+
+// argsFor: the arguments a helper's parameter stands for, one per call site.
+func (m *evalModel) argsFor(p *ssa.Parameter) []ssa.Value {
+	h := p.Parent()
+	sites, ok := m.helperSites[h]
+	if !ok {
+		return nil
+	}
+	idx := -1
+	for i, q := range h.Params {
+		if q == p {
+			idx = i
+		}
+	}
+	var out []ssa.Value
+	for _, s := range sites {
+		if idx >= 0 && idx < len(s.Common().Args) {
+			out = append(out, s.Common().Args[idx])
+		}
+	}
+	return out
 }
 
 func blockIf(b *ssa.BasicBlock) *ssa.If {
@@ -199,6 +351,22 @@ func spillCell(p *ssa.Parameter) *ssa.Alloc {
 }
 
 func (m *evalModel) regionOf(b *ssa.BasicBlock) string {
+	if m.helperSites != nil && m.helperOf(b.Parent()) != nil {
+		// a helper's blocks belong to the region of its call sites (when they agree)
+		name, first := "", true
+		for _, lb := range m.liftBlock(b, 0) {
+			if lb.Parent() != m.EVAL {
+				return ""
+			}
+			rn := m.regionOf(lb)
+			if first {
+				name, first = rn, false
+			} else if rn != name {
+				return ""
+			}
+		}
+		return name
+	}
 	best := ""
 	for name, reg := range m.regions {
 		if reg[b] {
@@ -214,12 +382,90 @@ func (m *evalModel) regionOf(b *ssa.BasicBlock) string {
 // isEnvLoad: v is the current scope (load of the env cell, or the env parameter itself when not spilled).
 func (m *evalModel) isCurrentScope(v ssa.Value) bool {
 	if m.envCell == nil {
-		return v == ssa.Value(m.envParam)
+		return m.isCurrentScopeSSA(v, map[ssa.Value]bool{})
 	}
 	if ld, ok := v.(*ssa.UnOp); ok && ld.Op == token.MUL {
 		return cellOf(ld.X) == m.envCell
 	}
 	return false
+}
+
+// isCurrentScopeSSA: the scope is not spilled: the current scope is the parameter, the loop-carried phi,
+// or a merge of those.
+func (m *evalModel) isCurrentScopeSSA(v ssa.Value, seen map[ssa.Value]bool) bool {
+	if v == ssa.Value(m.envParam) || (m.envPhi != nil && v == ssa.Value(m.envPhi)) {
+		return true
+	}
+	// the merge at the loop bottom that becomes the next iteration's scope
+	if phi, ok := v.(*ssa.Phi); ok && m.envPhi != nil && phi != m.envPhi {
+		for _, op := range m.envPhi.Edges {
+			if op == v {
+				return true
+			}
+		}
+	}
+	if phi, ok := v.(*ssa.Phi); ok && !seen[v] {
+		seen[v] = true
+		for _, op := range phi.Edges {
+			if !m.isCurrentScopeSSA(op, seen) {
+				return false
+			}
+		}
+		return true
+	}
+	return false
+}
+
+// scopeSwitch: a place where EVAL replaces its current scope (a store to the scope cell, or an edge of
+// the loop-carried scope phi that carries another value than the current scope).
+type scopeSwitch struct {
+	val   ssa.Value
+	block *ssa.BasicBlock
+	pos   token.Pos
+}
+
+func (m *evalModel) scopeSwitches() []scopeSwitch {
+	var out []scopeSwitch
+	if m.envCell != nil {
+		for _, st := range m.e.storesTo(m.envCell) {
+			if st.Block().Parent() != m.EVAL || st.Val == ssa.Value(m.envParam) {
+				continue
+			}
+			out = append(out, scopeSwitch{st.Val, st.Block(), st.Pos()})
+		}
+		return out
+	}
+	if m.envPhi == nil {
+		return nil
+	}
+	seen := map[*ssa.Phi]bool{}
+	var walk func(phi *ssa.Phi)
+	walk = func(phi *ssa.Phi) {
+		if seen[phi] {
+			return
+		}
+		seen[phi] = true
+		for i, op := range phi.Edges {
+			if m.isCurrentScope(op) {
+				if p, ok := op.(*ssa.Phi); ok {
+					walk(p)
+				}
+				continue
+			}
+			if p, ok := op.(*ssa.Phi); ok {
+				walk(p)
+				continue
+			}
+			pred := phi.Block().Preds[i]
+			pos := op.Pos()
+			if in, ok := op.(ssa.Instruction); ok && in.Block() != nil && m.regionOf(in.Block()) != "" {
+				pred = in.Block()
+			}
+			out = append(out, scopeSwitch{op, pred, pos})
+		}
+	}
+	walk(m.envPhi)
+	return out
 }
 
 // ---------------------------------------------------------------------------
@@ -426,6 +672,14 @@ func (c *classifier) compute(v ssa.Value) cls {
 		if fn == m.qqLoop {
 			return clsForm
 		}
+		// a parameter of an evaluation helper stands for the arguments at its call sites
+		if args := m.argsFor(x); len(args) > 0 {
+			r := clsNil
+			for _, a := range args {
+				r = joinCls(r, c.of(a))
+			}
+			return r
+		}
 		return clsUnknown
 	case *ssa.Phi:
 		r := clsNil
@@ -615,8 +869,8 @@ func (c *classifier) callResult(call *ssa.Call) cls {
 		}
 		return r
 	}
-	// closures of the evaluator (the try body runner): join of their returns
-	if callee.Parent() != nil {
+	// closures of the evaluator (the try body runner) and evaluation helpers: join of their returns
+	if _, isHelper := m.helperSites[callee]; callee.Parent() != nil || isHelper {
 		r := clsNil
 		for _, b := range callee.Blocks {
 			if ret, ok := b.Instrs[len(b.Instrs)-1].(*ssa.Return); ok && len(ret.Results) > 0 && b != callee.Recover {
